@@ -47,8 +47,10 @@ with open(os.path.join(ROOT, "README.md"), "w") as f:
         mark = lambda cs: ", ".join(("**%s**" % c) if c == own else c for c in cs) or "—"
         f.write("| %s — %s | %s | %s | %s | %s | %s |\n" % (name, title.replace("|", "/")[:90], files, "yes" if conf else "NO",
                                                             mark(concrete), mark(only_tie), detail.replace("|", "/").replace("\n", " ")))
-    missed = [r[0] for r in rows if r[1] not in r[5]]
-    f.write("\n%d changes, %d confirmed; %d caught by the check of their own property with a concrete input%s.\n"
+    outside = [r[0] for r in rows if os.path.exists(os.path.join(ROOT, r[0], "OUTSIDE.md"))]
+    missed = [r[0] for r in rows if r[1] not in r[5] and r[0] not in outside]
+    f.write("\n%d changes, %d confirmed; %d caught by the check of their own property with a concrete input%s%s.\n"
             % (len(rows), sum(1 for r in rows if r[4]), sum(1 for r in rows if r[1] in r[5]),
-               ("; not by their own check: " + ", ".join(missed)) if missed else ""))
+               ("; not by their own check: " + ", ".join(missed)) if missed else "",
+               ("; outside what any property claims (see OUTSIDE.md in their directories): " + ", ".join(outside)) if outside else ""))
 print("rows:", len(rows))
